@@ -15,7 +15,7 @@ def run(tier, seed):
     deductive(rep, "C01", ["markdown_it.parser_block.ParserBlock.tokenize"], "contracts.block", select=lambda q, ob, rel: True)
     deductive(rep, "C01", ["markdown_it.rules_inline.escape.escape", "markdown_it.parser_inline.ParserInline.tokenize", "markdown_it.parser_inline.ParserInline.skipToken"], "contracts.inline",
               select=lambda q, ob, rel: rel or ob.kind in ("SAFE", "DEC", "INV-init", "INV-pres", "PRE", "COVER", "GUARD"))
-    deductive(rep, "C01", ["markdown_it.helpers.parse_link_title.parseLinkTitle"], "contracts.helpers", select=lambda q, ob, rel: True)
+    deductive(rep, "C01", ["markdown_it.helpers.parse_link_title.parseLinkTitle", "markdown_it.helpers.parse_link_destination.parseLinkDestination", "markdown_it.helpers.parse_link_label.parseLinkLabel"], "contracts.helpers", select=lambda q, ob, rel: True)
     safety = lambda q, ob, rel: rel or ob.kind in ("SAFE", "DEC", "INV-init", "INV-pres", "PRE", "COVER", "GUARD")  # noqa: E731
     import contracts.delims as DL
     import contracts.emph as EM
